@@ -47,8 +47,8 @@ def main():
             import hashlib
             tag = hashlib.sha1(repo.encode()).hexdigest()[:8]
             for n in os.listdir(os.path.join(VERIF, "build")):
-                if n.endswith(tag):
-                    shutil.rmtree(os.path.join(VERIF, "build", n), ignore_errors=True)
+                if tag in n:
+                    p = os.path.join(VERIF, "build", n); shutil.rmtree(p, ignore_errors=True) if os.path.isdir(p) else os.remove(p)
 
 
 if __name__ == "__main__":
